@@ -123,7 +123,7 @@ class ExprMixin:
                      "isarray", "ufn", "trunc", "apply", "pairs_kept", "nyielded", "consumed", "nitems", "item",
                      "yields_items_of", "mapped", "induct", "assume_axiom", "chunk_off", "defined_len", "is_permutation",
                      "bo_fields", "bo_order", "bo_bytes", "bo_swapped", "bo_value", "bo_big", "bo_little", "bo_native",
-                     "bo_names", "machine_little", "approx", "psum"}
+                     "bo_names", "machine_little", "approx", "psum", "gl_nodes", "gl_weights"}
 
     def load_c_sibling(self, modname, cmod, name):
         from . import cfront
@@ -149,8 +149,40 @@ class ExprMixin:
         return None
 
     def module_global(self, mod, name):
+        active = self.__dict__.setdefault("_mg_active", set())
+        if (mod, name) in active:
+            return UNDEF            # import cycle (package re-exporting a module that imports from the package)
+        active.add((mod, name))
+        try:
+            return self._module_global(mod, name)
+        finally:
+            active.discard((mod, name))
+
+    def _module_global(self, mod, name):
         node = self.idx.module_global(mod, name)
         if node is None:
+            # `from .x import *`
+            try:
+                body = self.idx.module(mod).body
+            except KeyError:
+                return UNDEF
+            for st_ in body:
+                if isinstance(st_, ast.ImportFrom) and any(a.name == "*" for a in st_.names):
+                    src = st_.module or ""
+                    if st_.level:
+                        is_pkg = str(getattr(self.idx.module(mod), "_path", "")).endswith("__init__.py")
+                        parts = mod.split(".")
+                        drop = st_.level - 1 if is_pkg else st_.level
+                        base = parts[:len(parts) - drop] if drop else parts
+                        src = ".".join(base + ([st_.module] if st_.module else []))
+                    if src.startswith("esutil") and src != mod:
+                        try:
+                            self.idx.module(src)
+                        except KeyError:
+                            continue
+                        g = self.module_global(src, name)
+                        if g is not UNDEF:
+                            return g
             return UNDEF
         if isinstance(node, ast.FunctionDef):
             return Func(mod, name, node)
@@ -165,7 +197,10 @@ class ExprMixin:
                 if (a.asname or a.name) == name:
                     src = node.module or ""
                     if node.level:
-                        base = mod.split(".")[:-node.level] if not mod.endswith("__init__") else mod.split(".")
+                        is_pkg = str(getattr(self.idx.module(mod), "_path", "")).endswith("__init__.py")
+                        parts = mod.split(".")
+                        drop = node.level - 1 if is_pkg else node.level
+                        base = parts[:len(parts) - drop] if drop else parts
                         src = ".".join(base + ([node.module] if node.module else []))
                     return self.import_from(src, a.name)
         if isinstance(node, ast.Assign):
@@ -184,6 +219,11 @@ class ExprMixin:
         if src.startswith("numpy") or src in ("sys", "os", "math", "copy", "time", "pprint", "scipy"):
             return Prim(src + "." + name) if not src.startswith("numpy") else Prim("numpy." + name)
         if src.startswith("esutil"):
+            try:
+                self.idx.module(src + "." + name)       # a sub-module / sub-package of a package
+                return Module(src + "." + name)
+            except KeyError:
+                pass
             try:
                 self.idx.module(src)
             except KeyError:
@@ -309,7 +349,7 @@ class ExprMixin:
                 return r
             return x * y
         if opn == "Div":
-            if not fr.spec:
+            if not fr.spec and not getattr(self, "total_fdiv", False):
                 self.oblige(st, y != 0, "safety", "div-by-zero", node, fr)
             if "div" in getattr(self, "abstract", ()) and as_const(y) is None:
                 from .nplib import ufunc, R
